@@ -49,13 +49,14 @@ def check_c25(prog):
     from problog.cnf_formula import CNF
     from problog.parser import DefaultPrologParser
     from problog.program import ExtendedPrologFactory
-    src = progs.render(prog)
+    src = prog if isinstance(prog, str) else progs.render(prog)
     base = _eval(src)
     out = dict(src=src, base=base, violations=[], nontrivial=False)
     if base[0] != "ok":
         out["skip"] = True
         return out
     out["nontrivial"] = any(0.0 < v < 1.0 for v in base[1].values())
+    reserved = isinstance(prog, str) and ("choice(" in src or "body_" in src)
     for label, flags in (("to_prolog", ["--format", "pl"]), ("to_prolog-acyclic", ["--format", "pl", "--break-cycles"])):
         ok, text = _ground_task(src, *flags)
         if not ok:
@@ -72,7 +73,10 @@ def check_c25(prog):
             for line in text.splitlines():
                 h = line.split(":-")[0].strip().rstrip(".")
                 heads.add(h.split("::")[-1].strip())
-            if "None" in text.replace(",", " ").replace(".", " ").split():
+            if reserved:
+                # user predicates with the names the exporter uses for its own auxiliary nodes (choice/1, body_*)
+                kind = "reserved-predicate-name:" + kind
+            elif "None" in text.replace(",", " ").replace(".", " ").split():
                 # an unnamed disjunction node (explicit ';' in a body) is printed as None
                 kind = "unnamed-disjunction:" + kind
             elif (r[0] == "exc" and "UnknownClause" in r[1]) or \
@@ -304,6 +308,13 @@ def check_c29(prog):
     return out
 
 
+RESERVED_NAME_CASES = [
+    "0.2::e. 0.5::c. 0.5::d.\nchoice(1) :- e.\nchoice(1) :- c.\nk :- choice(1), d.\nquery(k).\n",
+    "0.2::e. 0.5::c. 0.5::d.\nbody_x :- e.\nbody_x :- c.\nk :- d, body_x.\nquery(k).\n",
+    "0.2::e. 0.5::c.\nbody_1(a) :- e.\nbody_1(a) :- c.\nquery(body_1(a)).\n",
+    "0.2::e. 0.5::c. 0.5::d.\nnode_3 :- e, c.\nk :- node_3, d.\nk :- (e, d), c.\nquery(k).\n",
+]
+
 CHECKS = {"C25": "check_c25", "C26": "check_c26", "C29": "check_c29"}
 DESCR = {"C25": "to_prolog() text of the ground program (cyclic and cycle-broken) re-parsed and re-evaluated; DIMACS text "
                 "re-read and compared clause by clause with the internal CNF",
@@ -321,6 +332,8 @@ def run(pid, tier, seed):
                         max_body=3 if pid == "C25" else 2)
     col = Collector("%s:metamorphic" % pid, "%d seeded programs of the bounded family; %s; distinct = program texts; non-trivial "
                     "= a reference probability strictly between 0 and 1" % (n, DESCR[pid]))
+    if pid == "C25":
+        ps = list(ps) + RESERVED_NAME_CASES
     for r in pmap("bounded.c25." + CHECKS[pid], ps):
         if r.get("skip"):
             continue
